@@ -141,6 +141,9 @@ func (r *Run) Violation(class string, what string, replay interface{}) {
 	b, _ := json.MarshalIndent(body, "", " ")
 	h := sha256.Sum256(b)
 	dir := filepath.Join(Root, "replays")
+	if d := os.Getenv("VERIF_EVIDENCE_DIR"); d != "" {
+		dir = filepath.Join(d, "replays")
+	}
 	_ = os.MkdirAll(dir, 0o755)
 	p := filepath.Join(dir, fmt.Sprintf("%s-%s.json", r.ID, hex.EncodeToString(h[:6])))
 	_ = os.WriteFile(p, b, 0o644)
@@ -176,6 +179,9 @@ func (r *Run) Finish() {
 	}
 	b, _ := json.MarshalIndent(out, "", " ")
 	dir := filepath.Join(Root, "evidence")
+	if d := os.Getenv("VERIF_EVIDENCE_DIR"); d != "" {
+		dir = d // mutant runs must not overwrite the evidence of the real tree
+	}
 	_ = os.MkdirAll(dir, 0o755)
 	if err := os.WriteFile(filepath.Join(dir, r.ID+".json"), append(b, '\n'), 0o644); err != nil {
 		fmt.Fprintln(os.Stderr, "evidence:", err)
